@@ -25,6 +25,21 @@ COMP_STRIDE = {"quick": {"sat": (5, 20), "other": (9, 30)}, "thorough": {"sat": 
 NC_KEEP = {"quick": {"sat": 4, "other": 8}, "thorough": {"sat": 1, "other": 2}}
 
 
+def mc_extdata(wd, u, ctx, stats):
+    """L2: the static figures and descriptor weights (ExtData.tla) against the satisfier model and Encode"""
+    name = "MC_ExtData_%s" % ctx
+    cfg = gen_cfg(u, ctx, maxnodes=4) + ["INIT Init", "NEXT Next", "INVARIANT Inv", "POSTCONDITION Post", "CHECK_DEADLOCK FALSE"]
+    write_module(wd, name, "MC_ExtData", gen_defs(u), cfg)
+    r = tlc(wd, name, name + ".cfg", workers=10, heap="12g", timeout=3300)
+    if not r.ok or r.tagged("VERDICT") or not r.tagged("MC_DONE"):
+        log(r.out[-4000:])
+        raise ToolError("MC_ExtData lemma failed (%s): the L2 figures do not bound the satisfier model" % ctx)
+    stats["states"] += r.distinct
+    stats["transitions"] += r.generated
+    stats.setdefault("mc_extdata", {})[ctx] = {"fragments": r.tagged("MC_DONE")[0][1], "secs": round(r.secs, 1)}
+    log("MC_ExtData %s: %d fragments (%.1fs)" % (ctx, r.tagged("MC_DONE")[0][1], r.secs))
+
+
 def gen_cfg_sat(u, ctx, maxnodes, stride, seed, nc=0):
     return gen_cfg(u, ctx, maxnodes, comp=stride, seed=seed, nc=nc)
 
@@ -137,18 +152,10 @@ def run(tier, seed, ctxs=CTXS, wd=None, with_mc=True):
             stats["transitions"] += r.generated
             stats.setdefault("mc_satisfier", {})[ctx] = {"fragments": r.tagged("MC_DONE")[0][1], "secs": round(r.secs, 1)}
             log("MC_Satisfier %s: %d fragments (%.1fs)" % (ctx, r.tagged("MC_DONE")[0][1], r.secs))
-            # L2: the static figures (ExtData.tla) against the satisfier model and Encode
-            name = "MC_ExtData_%s" % ctx
-            cfg = gen_cfg(u, ctx, maxnodes=4) + ["INIT Init", "NEXT Next", "INVARIANT Inv", "POSTCONDITION Post", "CHECK_DEADLOCK FALSE"]
-            write_module(wd, name, "MC_ExtData", gen_defs(u), cfg)
-            r = tlc(wd, name, name + ".cfg", workers=10, heap="12g", timeout=3300)
-            if not r.ok or r.tagged("VERDICT") or not r.tagged("MC_DONE"):
-                log(r.out[-4000:])
-                raise ToolError("MC_ExtData lemma failed (%s): the L2 figures do not bound the satisfier model" % ctx)
-            stats["states"] += r.distinct
-            stats["transitions"] += r.generated
-            stats.setdefault("mc_extdata", {})[ctx] = {"fragments": r.tagged("MC_DONE")[0][1], "secs": round(r.secs, 1)}
-            log("MC_ExtData %s: %d fragments (%.1fs)" % (ctx, r.tagged("MC_DONE")[0][1], r.secs))
+            mc_extdata(wd, u, ctx, stats)
+    if with_mc:
+        for ctx in (["legacy", "bare"] if tier == "quick" else ["bare"]):
+            mc_extdata(wd, UNIVERSE[tier], ctx, stats)
     stats["wall"] = time.time() - t0
     return {"verdicts": verdicts, "stats": stats, "wd": wd}
 
